@@ -17,10 +17,25 @@ def clauses_for(cfg):
     return cl
 
 
+STEP = ["C01_ClosedStepCentral", "C01_ClosedStepUpwind", "C01_ClosedStepExplicit"]
+for _c in STEP:
+    opscheck.NEEDS[_c] = []
+
+
+def step_clauses(cfg):
+    # the upwind scheme is not conservative across a periodic boundary (known finding): the
+    # upwind step clause is still evaluated and reported under that finding
+    return STEP
+
+
 def run(tier, seed):
+    import maxdrive
+    steps = dict(clauses_for=step_clauses, n_quick=4, n_thorough=40, gen_kw=[{"closed": True}],
+                 generator=maxdrive.gen, observe=maxdrive.observe)
     return opscheck.run_property(
         "C01", tier, seed, clauses_for=clauses_for, n_quick=9, n_thorough=90,
-        gen_kw=[{"closed": True}, {"closed": True, "nmax": 2}, {"closed": "periodic"}],
+        gen_kw=[{"closed": True}, {"closed": True, "nmax": 2}, {"closed": "periodic"}], parts=[steps],
+        sig_extra=lambda cl, e, v: ({"periodic": bool(e["obs"].get("periodic_any"))} if cl.startswith("C01_ClosedStep") else {}),
         rule="9 grid classes x seeded non-uniform spacings x coefficient / velocity fields that vanish on the domain "
              "boundary (closed) or are periodic along uniform-ended axes; V-weighted column sums of every flux-form "
              "matrix over the full column set (ghost cells included), V = the cell volumes domainIntegral() uses")
